@@ -395,6 +395,57 @@ def dg(cx):
                         bad_over += 1
                         if bad_over <= 2:
                             cx.bad(f, construct=label + (f" -> {[I.getattr(c, '__name__') for c in out.get('res', [])]}" if out.get("res") is not None else ""), detail="; ".join(probs) + ": the class that is emitted is the last one given for its name, with its own dependencies before it", sub="override")
+    # ---- the earlier class of the name is not handed over itself but REACHED as a dependency of an earlier root (a kernel
+    # argument class holding the class that extra_classes then replaces): still "the last one is used"
+    for new_deps in ((), (2,)):
+        for how in ("inner", "declared"):
+            for order in ((1, "new"), ("new", 1), (1, 2, "new"), (2, 1, "new")):
+                n_over += 1
+                out = {}
+
+                def thunk():
+                    mk = lambda nm: Obj("class", {"__name__": nm, "_gen_c_api": Builtin("api", lambda: nm), "_depends_on": []}, name=nm)
+                    k1, k2, old, new = mk("K1"), mk("K2"), mk("K0"), mk("K0")
+                    by = {1: k1, 2: k2, "old": old, "new": new}
+                    old.attrs["_get_inner_types"] = Builtin("inner", lambda: [])
+                    new.attrs["_get_inner_types"] = Builtin("inner", lambda: [by[d] for d in new_deps])
+                    k1.attrs["_get_inner_types"] = Builtin("inner", lambda: [old] if how == "inner" else [])
+                    k1.attrs["_depends_on"] = [old] if how == "declared" else []
+                    k2.attrs["_get_inner_types"] = Builtin("inner", lambda: [])
+                    res = I.call(I.global_lookup("context", "sort_classes"), [[by[x] for x in order]], {})
+                    out["res"] = list(res)
+                    out["new"] = new
+                    return None
+
+                res = I.explore(thunk, max_paths=4)
+                label = f"K1 depends ({how}) on a class K0; another class K0 (dependencies {['K%d' % d for d in new_deps]}) is handed over as well, classes handed over {list(order)}"
+                if len(res) != 1:
+                    raise AnalysisError(f"[DG] {label}: evaluation forks")
+                if res[0]["exc"] is not None:
+                    if res[0]["exc"].etype in ("AttributeError", "NameError"):
+                        raise AnalysisError(f"[DG] sort_classes cannot be evaluated: {res[0]['exc'].etype}: {res[0]['exc'].msg}")
+                    probs = [f"raises {res[0]['exc'].etype}"]
+                else:
+                    got = out["res"]
+                    names = [I.getattr(c, "__name__") for c in got]
+                    probs = []
+                    k0 = [c for c in got if I.getattr(c, "__name__") == "K0"]
+                    if len(k0) != 1 or k0[0] is not out["new"]:
+                        probs.append(f"K0 is emitted {len(k0)} times / not as the class HANDED OVER under that name (the one a dependency reaches took its place)")
+                    pos = {nm: i for i, nm in enumerate(names)}
+                    if "K0" in pos and "K1" in pos and pos["K0"] > pos["K1"]:
+                        probs.append("K0 is emitted after K1, which depends on it")
+                    for d in new_deps:
+                        if f"K{d}" not in pos:
+                            probs.append(f"K{d}, a dependency of the K0 handed over, is never emitted")
+                        elif "K0" in pos and pos[f"K{d}"] > pos["K0"]:
+                            probs.append(f"K{d} is emitted after K0, which depends on it")
+                    if len(names) != len(set(names)):
+                        probs.append(f"duplicates in {names}")
+                if probs:
+                    bad_over += 1
+                    if bad_over <= 2:
+                        cx.bad(f, construct=label + (f" -> {[I.getattr(c, '__name__') for c in out.get('res', [])]}" if out.get("res") is not None else ""), detail="; ".join(probs) + ": the result must not depend on the order in which the classes are handed over", sub="override")
     if not bad_over:
         cx.ok(f, construct=f"{n_over} cases of a class given again under the same name", detail="the last one is emitted, once, after its own dependencies", sub="override")
     if bad_seen > 3:
